@@ -171,10 +171,10 @@ def mkChunk (start stop : Int) (seq : List Char) : QR RPar :=
   else pure (.chunk start stop seq)
 
 /-- is F-C09b repaired in /repo?  (`_subset_parent`: `elif not parent.sequence: return self._parent_or_seq_chunk_parent`) -/
-def repairedC09b : Bool := false
+def repairedC09b : Bool := true
 /-- is F-C09c repaired in /repo?  (`_subset_parent`: `end = self.chromosome_location.end`, then
     `parent_to_relative_pos(end - 1) + 1` for every `end`) -/
-def repairedC09c : Bool := false
+def repairedC09c : Bool := true
 
 /-- `_subset_parent(start, end)`, as coded (`fixB = fixC = false`) and with the candidate repairs of F-C09b / F-C09c -/
 def subsetParentG (fixB fixC : Bool) (src : Source) (start stop : Int) : QR RPar := do
